@@ -369,6 +369,8 @@ def tasks(tier):
     out.append(Task("splineset_call", h_splineset_call, {}))
     for mode, ns in [("SEP", 2), ("NPOL", 2), ("POL", 2), ("POL", 1)] + ([("SEP", 1), ("NPOL", 1)] if tier == "thorough" else []):
         out.append(Task("dft_kernel/%s/nspin%d" % (mode, ns), h_dft_kernel, dict(mode=mode, nspin=ns), mods="kernels", max_paths=64, timeout_ms=60000))
+    from . import c04_libxc
+    out += c04_libxc.tasks(tier)
     return out
 
 
@@ -387,12 +389,12 @@ def prepare(tier):
 META = dict(
     explanation="symbolic execution of the real evaluator assembly code with contract stubs for verified leaves; z3 decides "
                 "dres == d(res)/d(X0T) and vrho_tuple == d(res)/d(rho tuple) on every path through the cutoff comparisons",
-    functions=['ciderpress/dft/xc_evaluator.py: SplineSetEvaluator.__call__ (splineset_call)', "ciderpress/models/dft_kernel.py: DFTKernel.__init__, get_k, get_k_and_deriv (dft_kernel/*)", "ciderpress/dft/xc_evaluator.py: KernelEvalBase.get_descriptors/apply_descriptor_grad/apply_baseline/_baseline, MappedDFTKernel.__call__, MappedXC.__call__, GlobalLinearEvaluator.__call__",
+    functions=['ciderpress/lib/xc_utils/libxc_baselines.c (clang IR): get_lda_baseline, get_gga_baseline, get_mgga_baseline with libxc as a contract (libxc_wrapper_history/*)', 'ciderpress/dft/xc_evaluator.py: SplineSetEvaluator.__call__ (splineset_call)', "ciderpress/models/dft_kernel.py: DFTKernel.__init__, get_k, get_k_and_deriv (dft_kernel/*)", "ciderpress/dft/xc_evaluator.py: KernelEvalBase.get_descriptors/apply_descriptor_grad/apply_baseline/_baseline, MappedDFTKernel.__call__, MappedXC.__call__, GlobalLinearEvaluator.__call__",
                "ciderpress/dft/xc_evaluator2.py: KernelEvalBase2.get_descriptors/apply_descriptor_grad/apply_libxc_baseline_/_get_baseline, MappedDFTKernel2.__call__, MappedXC2.__call__",
                "ciderpress/dft/baselines.py: every function in BASELINE_CODES, _sl_x_helper, get_sigma, get_dsigma, get_gga_c, get_libxc_baseline, get_libxc_baseline_ss, get_libxc_baseline_os"],
     bounds=dict(sample_points=1, nspin="1, 2", modes="SEP, NPOL, POL", raw_features=4, evaluators="1-2 accumulating", kernels="1-2 summed",
                 rhocut="symbolic in [0, 1]", features="[0, 64]"),
-    stubs=["feature maps / evaluators / native baselines: uninterpreted differentiable functions with declared partials (vf.stubs); "
+    stubs=["libxc_wrapper_history: xc_func_init binds (id, nspin) to the handle it is given; xc_{lda,gga,mgga}_exc_vxc write uninterpreted functions named after the binding of the handle of each point's inputs in libxc's layout for that nspin; xc_func_set_dens_threshold / xc_func_end no-ops", "feature maps / evaluators / native baselines: uninterpreted differentiable functions with declared partials (vf.stubs); "
            "POL evaluator contract F(a,b) = G(a,b) + G(b,a)", "libxc: uninterpreted E(rho, sigma, tau) per functional and spin count with v = dE/d. (libxc manual); dens_threshold ignored",
            "concrete leaves (UMap, TMap, VMap, WMap, lda_x, GlobalLinearEvaluator) in the overlap configuration"],
     assumptions=["SplineSetEvaluator (numba) and NNEvaluator (torch absent) are outside", "C kernels and Python kernel evaluator are decided under C11/C15",
